@@ -122,6 +122,7 @@ type run struct {
 	panics                      atomic.Int64
 	logbuf                      *safeBuf
 	closedAt, closeDone         atomic.Int64
+	newFields                   atomic.Int64
 }
 
 func (r *run) tick() int64 { return r.clock.Add(1) }
@@ -251,6 +252,15 @@ func runWorkload(t *rapid.T, w workload) *run {
 						}
 						pts[ts] = version
 						mp = append(mp, point(series, ts*10, version))
+					}
+					if len(mp) > 0 && cs[op%len(cs)]%6 == 0 {
+						// every so often the batch also introduces a new field (the shard saves its field
+						// set change while the write is in progress); the oracle reads "fi" only
+						name, tags := models.ParseKeyBytes([]byte(series))
+						if p, err := models.NewPoint(string(name), tags, models.Fields{fmt.Sprintf("n%d_%d", i, op): int64(op)}, mp[0].Time()); err == nil {
+							mp = append(mp, p)
+							r.newFields.Add(1)
+						}
 					}
 					o := wop{inv: r.tick(), pts: pts}
 					o.err = r.f.Store.WriteToShard(context.Background(), fix.ShardID, mp)
@@ -409,6 +419,25 @@ func runWorkload(t *rapid.T, w workload) *run {
 					if sh := r.f.Store.Shard(fix.ShardID); sh != nil {
 						_ = sh.Backup(io.Discard, "", time.Time{})
 					}
+				}
+			})
+		}()
+	}
+	// enabler: re-enables the (enabled) shard now and then, as Store.SetShardEnabled does; it has no
+	// effect on the data but takes the shard's exclusive lock, like Close, between the writers' steps
+	{
+		ys, _ := next()
+		wg.Add(1)
+		go func() {
+			defer wg.Done()
+			r.guard("enabler", func() {
+				for n := 0; !stop.Load() && n < 400; n++ {
+					yield(ys[n%len(ys)] + 5)
+					if sh := r.f.Store.Shard(fix.ShardID); sh != nil {
+						sh.SetEnabled(true)
+						r.tick()
+					}
+					time.Sleep(time.Millisecond)
 				}
 			})
 		}()
@@ -951,6 +980,9 @@ func TestPropConcurrentWorkload(t *testing.T) {
 		if force := os.Getenv("VERIF_C39_FORCE"); force != "" {
 			w.CloseMidRun = strings.Contains(force, "close")
 		}
+		if hangVerdict != "" {
+			rec.Fail(t, "TestPropConcurrentWorkload", "hang", hangVerdict, nil)
+		}
 		r := runWorkload(t, w)
 		if r.slow {
 			rec.Inconclusive("a workload was still making progress after 15 minutes (machine too busy); not judged")
@@ -969,6 +1001,10 @@ func TestPropConcurrentWorkload(t *testing.T) {
 				}
 			}
 			if again == 2 {
+				// leaked goroutines of a deadlocked engine make every further execution in this process
+				// slow or hung as well: remember the verdict so that rapid's re-runs of the property (to
+				// confirm and to shrink) fail at once with the same report
+				hangVerdict = fmt.Sprintf("no operation of the workload started or returned for 60 s in 3 of 3 executions (goroutine dumps under /tmp/c39-watchdog-*.txt): %+v", w)
 				rec.Fail(t, "TestPropConcurrentWorkload", "hang", fmt.Sprintf("no operation of the workload started or returned for 60 s in 3 of 3 executions (goroutine dumps under /tmp/c39-watchdog-*.txt): %+v", w), w)
 			}
 			rec.Inconclusive(fmt.Sprintf("a workload stalled for 60 s once and finished on re-execution (%d of 2 re-executions hung)", again))
@@ -1188,6 +1224,9 @@ func base(paths []string) []string {
 	}
 	return out
 }
+
+// hangVerdict is set once a workload stalled three times in a row (see TestPropConcurrentWorkload).
+var hangVerdict string
 
 const emptyAtCloseKey = "influxql-read-during-close-returns-empty"
 
